@@ -334,7 +334,7 @@ def run(tier):
     st = Stats()
     rep.rule = ("Params.tla: for each of 18 estimators, 7 GEMINI constructors and 7 validated functions: the bare "
                 "default configuration, the baseline, every parameter x every representative of the universe (others at "
-                "the baseline), all integer pairs (min_samples_leaf, min_samples_split) of Kauri, 7 malformed-data "
+                "the baseline), all integer pairs (min_samples_leaf, min_samples_split) of Kauri, every legal precomputed option fitted without its matrix, 7 malformed-data "
                 "classes per estimator and every predict/predict_proba/score/print before fit; Groups.tla: every list "
                 "of groups on the listed grids. A case is (class, kind, parameter, representative) resp. (d, group "
                 "list); each is replayed into the real constructor / fit / call on a 6x3 integer dataset")
